@@ -132,6 +132,29 @@ L2Answer(wrapped, db, idx, c, limited) ==
        IN IF limited /\ idl.k = "allids" THEN [rej |-> TRUE, s |-> {}]
           ELSE [rej |-> FALSE, s |-> SearchIdl(rf, db, 0, idl)]
 
+\* request limits of the translations: DEFAULT_LIMIT_FILTER_DEPTH_MAX and (for an account's default limits)
+\* DEFAULT_LIMIT_FILTER_MAX_ELEMENTS, every protocol node counts, the gateway's own wrapper nodes included
+FilterMaxDepth == 12
+FilterMaxElements == 32
+Max2(x, y) == IF x > y THEN x ELSE y
+RECURSIVE SeqSum(_, _), SeqMax(_, _)
+SeqSum(s, i) == IF i > Len(s) THEN 0 ELSE s[i] + SeqSum(s, i + 1)
+SeqMax(s, i) == IF i > Len(s) THEN 0 ELSE Max2(s[i], SeqMax(s, i + 1))
+RECURSIVE LdapNodes(_), LdapDepth(_), ScimDepth(_)
+LdapNodes(lf) == CASE lf.k \in {"and", "or"} -> 1 + SeqSum([i \in DOMAIN lf.fs |-> LdapNodes(lf.fs[i])], 1)
+                   [] lf.k = "not" -> 1 + LdapNodes(lf.f)
+                   [] OTHER -> 1
+LdapDepth(lf) == CASE lf.k \in {"and", "or"} -> 1 + SeqMax([i \in DOMAIN lf.fs |-> LdapDepth(lf.fs[i])], 1)
+                   [] lf.k = "not" -> 1 + LdapDepth(lf.f)
+                   [] OTHER -> 1
+ScimDepth(sf) == CASE sf.k \in {"and", "or"} -> 1 + Max2(ScimDepth(sf.l), ScimDepth(sf.r))
+                   [] sf.k = "not" -> 1 + ScimDepth(sf.e)
+                   [] OTHER -> 1
+\* LDAP: AND(user filter, NOT(OR(3 class terms))) = 6 wrapper nodes, one wrapper level
+LdapTooBig(lf) == LdapNodes(lf) + 6 > FilterMaxElements \/ LdapDepth(lf) + 1 > FilterMaxDepth
+\* SCIM (unlimited element count for the impersonated identity): AND(class filter, user filter) = one wrapper level
+ScimTooBig(sf) == ScimDepth(sf) + 1 > FilterMaxDepth
+
 \* ----------------------------- divergence classes -------------------------
 RECURSIVE LdapSplit(_)
 LdapSplit(lf) == CASE lf.k = "substr" -> (IF lf.i = NoNeedle THEN 0 ELSE 1) + Len(lf.any) + (IF lf.f = NoNeedle THEN 0 ELSE 1) >= 2
